@@ -136,7 +136,7 @@ ALL_DOCS = sorted(set(d for d, _ in DOC_PAIRS) | set([
     'sample-jsons/race_invalid_athlete_external.json', 'sample-jsons/race_invalid_athlete_internal.json']))
 
 
-def gen_cache_fill(rng):
+def gen_cache_fill(rng, programs=None):
     """>= 20 distinct keys for each validation cache, drawn per scenario (so that the scenario's own
     calls sometimes hit and mostly miss a cache that is at its size limit)."""
     sv = [(s, v) for s in SCHEMAS for v in VALIDATORS]
@@ -144,14 +144,23 @@ def gen_cache_fill(rng):
     va = [(d, s) for d in ALL_DOCS for s in SCHEMAS[:7]]
     rng.shuffle(va)
     n1 = rng.choice((20, 20, 21, 23)); n2 = rng.choice((20, 20, 21, 23))
-    return ([c('utils.schema_valid', s, validator=V(v)) for s, v in sv[:n1]]
+    fill = ([c('utils.schema_valid', s, validator=V(v)) for s, v in sv[:n1]]
             + [c('utils.valid_against_schema', d, s) for d, s in va[:n2]])
+    # with probability 1/2 the *newest* entry of a cache is a key one of the scenario's calls uses
+    # (the eviction victim is the newest entry, so that is the entry other threads can pull away)
+    if programs and rng.random() < 0.5:
+        mine = [cl for p in programs for cl in p if cl['f'].startswith('utils.')]
+        if mine:
+            cl = rng.choice(mine)
+            k = {kk: v for kk, v in cl['k'].items() if kk != 'expect_failure'}
+            fill.append({'f': cl['f'], 'a': list(cl['a']), 'k': k})
+    return fill
 
 
 def gen_scenario(rng):
     scn = _gen_scenario(rng)
     if scn['variant'] == 'cachefull':
-        scn['warm'] = gen_cache_fill(rng)
+        scn['warm'] = gen_cache_fill(rng, scn['programs'])
     return scn
 
 
@@ -169,8 +178,11 @@ def _gen_scenario(rng):
         ncalls = 1 if nthreads == 3 else (1 if rng.random() < 0.6 else 2)
         prog = []
         for i in range(ncalls):
+            earlier = [cl for p in programs for cl in p] + prog
             if equal and i == 0:
                 prog.append(base_call)
+            elif earlier and rng.random() < 0.2:
+                prog.append(rng.choice(earlier))        # same arguments again (same cache key, same table row)
             else:
                 g = weighted(rng, GROUP_WEIGHTS) if mixed else grp
                 prog.append(rng.choice(CATALOGUE[g]))
@@ -309,7 +321,7 @@ SAMPLERS = ('step', 'line', 'write')
 
 
 def draw_schedule(rng, nthreads, traces, wlines):
-    """traces[t] = list of (file, line) of thread t's program run solo-first."""
+    """traces[t] = the distinct line traces [(file, line), ...] thread t's program had sequentially."""
     d = weighted(rng, [(0, 5), (1, 35), (2, 45), (3, 15)])
     sampler = rng.choice(SAMPLERS)
     first = rng.randrange(nthreads)
@@ -320,7 +332,9 @@ def draw_schedule(rng, nthreads, traces, wlines):
         if d >= 2 and pre and rng.random() < 0.5:
             # ping-pong: pre-empt the thread the previous pre-emption switched to
             t = pre[-1]['to']
-        tr = traces[t]
+        if not traces[t]:
+            continue
+        tr = rng.choice(traces[t])
         if not tr:
             continue
         if sampler == 'step':
@@ -369,10 +383,15 @@ def violation_class(programs, accepted, res):
 
 
 def oracle(athlib, programs, wall_cap=60.0):
-    """Accepted outcome set per call + per-thread solo-first traces, from sequential runs in forks."""
+    """Accepted outcome set per call + per-thread traces, from sequential runs in forks.
+
+    traces[t] is the list of *distinct* line traces thread t's program had over all call-atomic
+    sequential orders (running first it takes the miss / table-building path, running after the
+    others it takes the hit / already-built path): the samplers draw positions from any of them.
+    """
     lens = [len(p) for p in programs]
     accepted = [[set() for _ in p] for p in programs]
-    traces = [None] * len(programs)
+    traces = [[] for _ in programs]
     wlines = set()
     norders = 0
     for order in linearizations(lens):
@@ -385,9 +404,10 @@ def oracle(athlib, programs, wall_cap=60.0):
         for t in range(len(programs)):
             for i in range(lens[t]):
                 accepted[t][i].add(outs[t][i])
-            # keep the trace of the order in which thread t ran before everybody else (longest path)
-            if traces[t] is None or len(trs[t]) > len(traces[t]):
-                traces[t] = trs[t]
+            if trs[t] not in traces[t]:
+                traces[t].append(trs[t])
+    for t in range(len(programs)):
+        traces[t].sort(key=lambda tr: (-len(tr), tr))
     return accepted, traces, wlines, norders
 
 
@@ -397,11 +417,12 @@ def scenario_job(athlib, scn, sched_seeds, opts):
     warm_up(athlib, scn)
     programs = scn['programs']
     accepted, traces, wlines, norders = oracle(athlib, programs)
-    solo_steps = sum(len(t) for t in traces)
+    solo_steps = sum(len(tt[0]) for tt in traces if tt)
     exec_lines = set()
-    for t in traces:
-        for (f, l) in t:
-            exec_lines.add('%s:%d' % (os.path.relpath(f, common.ATHLIB_DIR), l))
+    for tt in traces:
+        for t in tt:
+            for (f, l) in t:
+                exec_lines.add('%s:%d' % (os.path.relpath(f, common.ATHLIB_DIR), l))
     step_cap = max(300000, 30 * solo_steps)
     cnt = Counter()
     cnt.inc('oracle_orders', norders)
@@ -410,10 +431,12 @@ def scenario_job(athlib, scn, sched_seeds, opts):
     samples = []
     fnsw = Counter()
     import random
+    rd = 0
     for k, sseed in enumerate(sched_seeds):
         rng = random.Random(sseed)
         spec = draw_schedule(rng, len(programs), traces, wlines)
         res = run_one(athlib, programs, spec, step_cap)
+        rd = (rd + common.run_digest_term(sseed, [res['status'], res['out'], res['switches'], res['digest']])) & ((1 << 64) - 1)
         cnt.inc('runs')
         cnt.inc('steps', res['steps'])
         cnt.inc('preemptions_planned', len(spec['preemptions']))
@@ -446,7 +469,7 @@ def scenario_job(athlib, scn, sched_seeds, opts):
             samples.append({'scenario': scn, 'schedule': spec, 'switches': res['switches'],
                             'outcomes': res['out'], 'steps': res['steps']})
     return {'cnt': cnt, 'sigs': sigs, 'sigs_nt': sigs_nt, 'violations': violations, 'samples': samples,
-            'fnsw': fnsw, 'exec_lines': exec_lines}
+            'fnsw': fnsw, 'exec_lines': exec_lines, 'rd': rd}
 
 
 def run_one(athlib, programs, spec, step_cap, wall_cap=40.0):
@@ -551,7 +574,7 @@ def worker(master, n_scn, k, opts):
         athlib, nlocks = prepare_athlib()
         agg = {'cnt': Counter(), 'sigs': set(), 'sigs_nt': set(), 'violations': [], 'samples': [],
                'fnsw': Counter(), 'by_group': Counter(), 'by_variant': Counter(), 'harness_errors': [],
-               'exec_lines': set()}
+               'exec_lines': set(), 'rd': 0}
         agg['cnt'].inc('lock_seam_rebound', nlocks if wi == 0 else 0)
         t0 = time.monotonic()
         budget = opts.get('budget_s')
@@ -575,6 +598,7 @@ def worker(master, n_scn, k, opts):
             agg['sigs'] |= r['sigs']; agg['sigs_nt'] |= r['sigs_nt']
             agg['fnsw'].merge(r['fnsw'])
             agg['exec_lines'] |= r['exec_lines']
+            agg['rd'] = (agg['rd'] + r['rd']) & ((1 << 64) - 1)
             agg['by_group'].inc(scn['group']); agg['by_variant'].inc(scn['variant'])
             for v in r['violations']:
                 v['scenario_index'] = idx
@@ -661,7 +685,9 @@ def main(tier_, replay=None):
     parts = common.run_pool(worker(master, cfg['scenarios'], cfg['k'], opts), nw, wall_cap=cfg['wall'])
     cnt = Counter(); fnsw = Counter(); byg = Counter(); byv = Counter()
     sigs = set(); sigs_nt = set(); viols = []; samples = []; herr = []; exec_lines = set()
+    rd = 0
     for p in parts:
+        rd = (rd + p['rd']) & ((1 << 64) - 1)
         exec_lines |= p['exec_lines']
         cnt.merge(p['cnt']); fnsw.merge(p['fnsw']); byg.merge(p['by_group']); byv.merge(p['by_variant'])
         sigs |= p['sigs']; sigs_nt |= p['sigs_nt']; viols += p['violations']; samples += p['samples']
@@ -717,7 +743,7 @@ def main(tier_, replay=None):
         'oracle_sequential_runs': cnt.get('oracle_orders', 0),
         'violating_runs': cnt.get('violating_runs', 0),
         'violation_classes': sorted(seen),
-        'determinism': det,
+        'all_runs_digest': '%016x' % rd,
         'lock_seam_objects_rebound': cnt.get('lock_seam_rebound', 0),
         'components': {'real': ['athlib (working tree)', 'jsonschema', 'json', 'decimal', 'CPython threads'],
                        'simulated': ['thread scheduling (baton, sys.settrace line events)', 'process freshness (fork)',
